@@ -201,8 +201,18 @@ def cache_history_level(ctx):
             return hp[(s_, pw)]
         table = {u: rng.choice(pws) for u in rng.sample(users, rng.randint(1, 3))}
 
+        junk = {"front": [], "back": []}       # lines a live edit may leave: `login:` (locked), `:digest`, a second line for a login
+
         def lines_of(t):
-            return ["%s:%s" % (u, digest(p)) for u, p in t.items()]
+            return junk["front"] + ["%s:%s" % (u, digest(p)) for u, p in t.items()] + junk["back"]
+
+        def first_entries(t):
+            out = {}
+            for ln in lines_of(t):
+                lg, dg = ln.split(":", 1)
+                if lg and dg and lg not in out:
+                    out[lg] = dg
+            return out
         f = tempfile.NamedTemporaryFile("w", suffix=".htpasswd", delete=False, encoding="utf-8")
         f.close()
         clock = [1_700_000_000_000_000_000]
@@ -248,14 +258,39 @@ def cache_history_level(ctx):
                     ed = "user added"
                 elif e < 0.8:
                     ed = "touched"
+                elif e < 0.92:
+                    # a live edit that leaves a line the re-read complains about (refused at start-up, skipped on a re-read) - the
+                    # rest of the file counts as it is now; often together with a credential change elsewhere in the file
+                    j = rng.random()
+                    where = rng.choice(["front", "back"])
+                    if j < 0.3:
+                        junk[where].append("%s:" % rng.choice(users))
+                        ed = "line with an empty digest added"
+                    elif j < 0.45:
+                        junk[where].append(":%s" % digest(rng.choice(pws)))
+                        ed = "line with an empty login added"
+                    elif j < 0.8:
+                        junk[where].append("%s:%s" % (rng.choice(users), digest(rng.choice(pws))))
+                        ed = "second line for a login added (%s)" % where
+                    else:
+                        junk["front"], junk["back"] = [], []
+                        ed = "problematic lines removed"
+                    if table and rng.random() < 0.6:
+                        u = rng.choice(list(table))
+                        table[u] = rng.choice([p for p in pws if p != table[u]])
+                        ed += " + password of %s changed" % u
+                    elif len(table) > 1 and rng.random() < 0.3:
+                        u = rng.choice(list(table))
+                        del table[u]
+                        ed += " + %s removed" % u
                 if ed != "-":
                     write(table)
                 edits.append(ed)
                 login = rng.choice(users)
                 pw = rng.choice(pws)
                 st = os.stat(f.name)
-                for u, p in table.items():
-                    all_entries[(u, digest(p))] = 1
+                for u, d_ in first_entries(table).items():
+                    all_entries[(u, d_)] = 1
                 steps.append({"lines": [chars(x) for x in lines_of(table)], "size": st.st_size, "mtime": st.st_mtime_ns,
                               "login": chars(login), "pw": chars(pw)})
                 try:
@@ -263,7 +298,7 @@ def cache_history_level(ctx):
                 except Exception as ex:
                     got = "EXC:" + repr(ex)
                 results.append(got)
-                expected.append(login if table.get(login) == pw else "")
+                expected.append(login if first_entries(table).get(login) == digest(pw) else "")
             rows = []
             for (u, d) in all_entries:
                 for pw in pws:
